@@ -32,6 +32,7 @@ type generator struct {
 var registry = []generator{
 	{Name: "RecoverTable", File: "RecoverTable.v", Run: genRecoverTable},
 	{Name: "DecTables", File: "DecTables.v", Run: genDecTables},
+	{Name: "GoFuncs", File: "GoFuncs.v", Run: genGoFuncs},
 }
 
 func writeIfChanged(path string, content []byte) (bool, error) {
